@@ -2,7 +2,7 @@
 """Entry point of every registered check:  python3 tools/check.py <Cnn> [--tier quick|thorough] [--replay file]"""
 import sys, os, json, argparse
 sys.path.insert(0, os.path.dirname(os.path.abspath(__file__)))
-import vlib, hashcheck
+import vlib, hashcheck, aescheck
 
 
 # ----------------------------------------------------------------------------- hash family
@@ -105,6 +105,91 @@ def check_hash(pid, tier, replay=None):
                            "non-empty (op,flags,length-class) cells x families")
 
 
+AES_PROPS = {
+    # pid: (what -> families, monitor prefixes, op kinds that belong to the property, Lean module, theorems)
+    "C02": ({"gcm": aescheck.GCM}, ("C02-",), ("GO", "GK"), "IsalVerif.Props.C02", []),
+    "C07": ({"gcm": aescheck.GCM}, ("C07-",), ("GI", "GU", "GF", "GK"), "IsalVerif.Props.C07", []),
+    "C03": ({"xts": aescheck.XTS}, ("C03-",), ("X",), "IsalVerif.Props.C03", []),
+    "C04": ({"cbc": aescheck.CBC, "keyexp": aescheck.KEYEXP}, ("C04-",), ("C", "K"), "IsalVerif.Props.C04", []),
+}
+
+
+def check_aes(pid, tier, replay=None):
+    whats, prefixes, kinds, module, thms = AES_PROPS[pid]
+    thms = AES_THMS.get(pid, thms)
+    chk = vlib.Check(pid, tier)
+    for name, detail in vlib.lean_obligations(chk, module, thms, extra_targets=["isal_model"]):
+        chk.violation("Lean obligation no longer checks: %s" % name,
+                      {"kind": "obligation", "obligation": name, "detail": detail}, no_input=True)
+    drv = vlib.harness_bin("drv_aes")
+    if replay:
+        rp = json.load(open(replay))
+        a = rp["args"]
+        r = aescheck.run_one(drv, a[0], a[1], int(a[2]), int(a[3]), int(a[4]))
+        bad = [m for m in r["monitors"] if any(p in m for p in prefixes)] or [d for d in r["diffs"] if d["op"].split()[0] in kinds]
+        print("replay: monitors=%s diffs=%d" % (r["monitors"][:3], len(r["diffs"])))
+        return 1 if bad else 0
+    if tier == "quick":
+        nops, maxlen, seeds = 500, 3000, [chk.seed]
+    else:
+        nops, maxlen, seeds = 6000, 70000, [chk.seed * 100 + k for k in range(4)]
+    jobs = [(w, f, s, nops, maxlen) for w, fams in whats.items() for f in fams for s in seeds]
+    results = aescheck.sweep(drv, jobs)
+    total, hist, fam_ops = 0, {}, {}
+    for r in results:
+        key = "%s/%s" % (r["what"], r["fam"])
+        total += r["ops"]
+        fam_ops[key] = fam_ops.get(key, 0) + r["ops"]
+        for k, v in r["hist"].items():
+            if k.split(":")[0] in kinds:
+                hist[k] = hist.get(k, 0) + v
+        mine = [m for m in r["monitors"] if any(p in m for p in prefixes) or m.startswith("CRASH")]
+        diffs = [d for d in r["diffs"] if d["op"].split() and d["op"].split()[0] in kinds]
+        ok = not mine and not diffs
+        chk.oblige("correspondence+monitor %s seed=%s" % (key, r["args"][2]), ok, "ops=%d diffs=%d monitors=%d" % (r["ops"], len(diffs), len(mine)))
+        if mine or diffs:
+            # the op stream is seed-deterministic: shrink the op budget to the first failing op
+            lo, hi, best = 1, int(r["args"][3]), r
+            while lo < hi and not r.get("crash"):
+                mid = (lo + hi) // 2
+                rr = aescheck.run_one(drv, r["what"], r["fam"], int(r["args"][2]), mid, int(r["args"][4]))
+                bad = [m for m in rr["monitors"] if any(p in m for p in prefixes)] or [d for d in rr["diffs"] if d["op"].split()[0] in kinds]
+                if bad:
+                    hi, best = mid, rr
+                else:
+                    lo = mid + 1
+            mine2 = [m for m in best["monitors"] if any(p in m for p in prefixes) or m.startswith("CRASH")]
+            d2 = [d for d in best["diffs"] if d["op"].split()[0] in kinds]
+            if mine2:
+                what = mine2[0].split()[1] if len(mine2[0].split()) > 1 else mine2[0]
+                chk.violation("%s in %s" % (what, key),
+                              {"kind": "input", "family": key, "args": best["args"], "monitor": mine2[:3],
+                               "failing_op": (d2[0] if d2 else None), "minimized": True},
+                              match={"family": key, "monitor": what})
+            else:
+                # implementation differs from the Lean spec/model on a concrete input: that input is the replay
+                chk.violation("output differs from the Lean specification in %s: %s" % (key, d2[0]["op"] if d2 else "?"),
+                              {"kind": "input", "family": key, "args": best["args"], "failing_op": d2[0] if d2 else None,
+                               "note": "OpenSSL monitor did not flag this op: suspect the model first", "minimized": True},
+                              match={"family": key, "monitor": "spec-diff"})
+        if r.get("sample") and len(chk.samples) < 8:
+            chk.samples.append({"family": key, "ops": r["sample"]})
+    chk.cov["correspondence"] = {"calls": total, "families": fam_ops, "input_histogram": hist}
+    chk.cov["evaluations"] = total
+    chk.cov["distinct_nontrivial"] = len(hist) * len(fam_ops)
+    chk.trusted = ["Lean 4.33.0 kernel; axioms allowed: propext, Classical.choice, Quot.sound",
+                   "Spec/{Aes,Gf128,Gcm,Xts,Cbc}.lean transcriptions of FIPS-197 / SP 800-38D / IEEE 1619 / SP 800-38A (tested on the published vectors)",
+                   "the assembly kernels are compared with the Lean oracle per call (differential), not verified",
+                   "OpenSSL libcrypto as a second, independent oracle"]
+    chk.assumptions = ["host CPU executes every family (vaes, vpclmulqdq, avx512 present)"]
+    return chk.finish(level="proof", rule="seeded op streams per family: key sizes x enc/dec x in-place/disjoint x random "
+                      "alignments x length classes (0, <16, 16k, tail, big) x AAD/tag sizes; distinct_nontrivial = "
+                      "non-empty (op kind, length class) cells x families")
+
+
+AES_THMS = {}
+
+
 def check_c15(pid, tier, replay=None):
     """big totals: every family really hashes a stream crossing 2^29 (quick) / 2^32 / 2^32+2^29 (thorough)"""
     import subprocess
@@ -185,7 +270,8 @@ def check_c15(pid, tier, replay=None):
                       "digests/totals compared with the Lean model and the final digest with OpenSSL")
 
 
-CHECKS = {"C01": check_hash, "C06": check_hash, "C11": check_hash, "C15": check_c15}
+CHECKS = {"C01": check_hash, "C06": check_hash, "C11": check_hash, "C15": check_c15,
+          "C02": check_aes, "C03": check_aes, "C04": check_aes, "C07": check_aes}
 
 
 def main():
